@@ -76,14 +76,18 @@ func zzC02ParrotsValid() {
 	verifReach("end")
 }
 
-//verif:harness C03 parrot_matches_spec unwind=4000 instrs=400000000 paths=20000
-//verif:stub (*math/rand.Rand).Shuffle zzStubShuffle
+//verif:harness C03 parrot_matches_spec unwind=4000 instrs=400000000 paths=60000
+//verif:stub (*math/rand.Rand).Shuffle zzStubShuffleOneSwap
 //verif:expect end
-//verif:doc Every predefined parrot: the wire hello equals an independent reference encoding of a fresh UTLSIdToSpec(id) — legacy_version min(max,1.2), cipher suites and compression, extension code-point sequence (same multiset with GREASE/padding/PSK fixed for shuffling parrots) and every extension body — modulo exactly the per-connection material C03 lists. All random bytes symbolic.
+//verif:doc Every predefined parrot: the wire hello equals an independent reference encoding of a fresh UTLSIdToSpec(id) — legacy_version min(max,1.2), cipher suites and compression, extension code-point sequence (same multiset with GREASE/padding/PSK fixed for shuffling parrots) and every extension body — modulo exactly the per-connection material C03 lists. All random bytes symbolic; Config.NextProtos unset or {http/1.1}; for shuffling parrots the shuffle performs zero or one arbitrary legal swap.
 func zzC03ParrotMatchesSpec() {
 	p := zzChooseParrot()
 	cfg := zzConfig("example.com")
 	cfg.OmitEmptyPsk = true
+	if verifBool("caller-nextprotos") {
+		// the caller's NextProtos must not leak into a parrot's extension bodies
+		cfg.NextProtos = []string{"http/1.1"}
+	}
 	uc, _, err := zzBuild(p.id, cfg)
 	verifAssertClass(err == nil, "build-succeeds", p.name)
 	if err != nil {
